@@ -1,7 +1,8 @@
 """Generator of RAILS-world scenarios (configuration spec + conversations + verdict table)."""
 from ..kernel.draws import SHORT_GRID
 
-V1_MODES = [("rails_only", 3), ("dialog", 4), ("single_call", 2), ("passthrough", 2), ("embeddings_only", 1), ("multistep", 1)]
+# passthrough_dialog: passthrough together with dialog rails (user intents and flows): the bot message is then generated from the user message itself
+V1_MODES = [("rails_only", 3), ("dialog", 4), ("single_call", 2), ("passthrough", 2), ("embeddings_only", 1), ("multistep", 1), ("passthrough_dialog", 1.5)]
 WORDS = ["please", "tell", "me", "about", "now", "ok", "thanks", "why", "how"]
 
 
